@@ -50,6 +50,7 @@ type AssertionModel struct {
 	Version      Opt `json:"version"`
 	IssueInstant Opt `json:"issueInstant"`
 	Issuer       Opt `json:"issuer"`
+	IssuerFormat Opt `json:"issuerFormat"` // Format attribute of the Issuer element
 
 	HasSubject     bool `json:"hasSubject"`
 	NameID         Opt  `json:"nameID"`
@@ -93,6 +94,7 @@ type ResponseModel struct {
 	Version      Opt      `json:"version"`
 	IssueInstant Opt      `json:"issueInstant"`
 	Issuer       Opt      `json:"issuer"`
+	IssuerFormat Opt      `json:"issuerFormat"`
 	HasStatus    bool     `json:"hasStatus"`
 	HasCode      bool     `json:"hasCode"`
 	StatusCode   Opt      `json:"statusCode"`
@@ -113,6 +115,7 @@ type LogoutModel struct {
 	Version      Opt      `json:"version"`
 	IssueInstant Opt      `json:"issueInstant"`
 	Issuer       Opt      `json:"issuer"`
+	IssuerFormat Opt      `json:"issuerFormat"`
 	NameID       Opt      `json:"nameID"`       // request only
 	SessionIndex Opt      `json:"sessionIndex"` // request only
 	HasStatus    bool     `json:"hasStatus"`    // response only
@@ -187,7 +190,9 @@ func BuildAssertion(a *AssertionModel, ns NSStyle) *etree.Element {
 	setOpt(el, "Version", a.Version)
 	setOpt(el, "IssueInstant", a.IssueInstant)
 	if a.Issuer.Set {
-		el.AddChild(textEl(ns.aEl("Issuer", true), a.Issuer.V))
+		is := textEl(ns.aEl("Issuer", true), a.Issuer.V)
+		setOpt(is, "Format", a.IssuerFormat)
+		el.AddChild(is)
 	}
 	if a.HasSubject {
 		sub := ns.aEl("Subject", true)
@@ -301,7 +306,9 @@ func BuildResponse(m *ResponseModel, ns NSStyle) *etree.Element {
 	setOpt(root, "IssueInstant", m.IssueInstant)
 	setOpt(root, "Destination", m.Destination)
 	if m.Issuer.Set {
-		root.AddChild(textEl(ns.aEl("Issuer", false), m.Issuer.V))
+		is := textEl(ns.aEl("Issuer", false), m.Issuer.V)
+		setOpt(is, "Format", m.IssuerFormat)
+		root.AddChild(is)
 	}
 	if m.ExtAssertion != nil {
 		ext := mk(ns.P, "Extensions")
@@ -337,7 +344,9 @@ func BuildLogout(m *LogoutModel, ns NSStyle) *etree.Element {
 	setOpt(root, "Destination", m.Destination)
 	setOpt(root, "InResponseTo", m.InResponseTo)
 	if m.Issuer.Set {
-		root.AddChild(textEl(ns.aEl("Issuer", false), m.Issuer.V))
+		is := textEl(ns.aEl("Issuer", false), m.Issuer.V)
+		setOpt(is, "Format", m.IssuerFormat)
+		root.AddChild(is)
 	}
 	if m.Kind == "LogoutRequest" {
 		if m.NameID.Set {
